@@ -45,6 +45,7 @@ F = [
  ("C16","C16-filter-block-unchecked","fixed","27fb7a5","an altered byte inside a table's filter block was not detected (the block's checksum was never verified): point lookups of stored keys returned nothing, or the filter reader panicked on an out-of-range slice index"),
  ("C15","C15-oversize-transaction-logged-then-rejected","fixed","3410593","a transaction larger than a whole memtable was written to the commit log, its apply failed, commit() returned an error - and after close + reopen the failed transaction was there"),
  ("C15","C15-table-footer-short-write","fixed","5aacede","the table footer was written with write() instead of write_all(): a short write (legal) left a cut footer and a table that fails its checks"),
+ ("C15","C15-flush-on-close-after-failed-manifest-sync","fixed","757d307","a sync error after a new manifest had been installed made the flush report failure; close() with flush_on_close then flushed again under the same table id and rewrote the table file the installed manifest references (a crash in that window left a store that does not open / unreadable values)"),
  ("C15","C15-failed-commit-record-stays-in-log","open","","a commit that fails at the commit log (append or sync error; also an apply failure for a batch just under the memtable size) returns an error but its record stays in the log: after a crash and restart it is replayed - the failed transaction is visible and the recovered state is not a commit prefix. Not repaired: taking the record back needs the log writer to roll back its buffered, block-framed position (or a tombstone record), which is more than a small patch"),
  ("C11","C11-vlog-rotation-inside-flush-not-synced","fixed","f424741","a value-log file rotated away inside a flush was never fsynced; after power loss the installed table pointed at missing bytes"),
 ]
